@@ -419,7 +419,7 @@ func countPoints() []int {
 	for k := 0; k <= 300; k++ {
 		ks = append(ks, k)
 	}
-	return append(ks, newIntPoints(300, 1<<16)...)
+	return append(ks, newIntPoints(300, 4096)...)
 }
 
 // LenSQL2: more length boundaries: long tokens around 64/128/256, dollar tags of every length to 70,
